@@ -17,6 +17,7 @@ CONSTANTS
   MaxRules,
   FixedRules,  \* rules every program contains (may be {})
   EdbChoices,  \* set of base-fact sets
+  ExtraRules,  \* complete rules that may be added besides the Heads x Bodies x Transforms product
   Randomized,  \* TRUE: rules are drawn component-wise at random (for tlc -simulate over large vocabularies)
   Keep(_)      \* filter on candidate rules (e.g. no arithmetic inside recursion)
 
@@ -30,7 +31,7 @@ Init == rules = FixedRules /\ edb = {} /\ phase = "rules"
 
 AddRule == /\ phase = "rules" /\ ~Randomized
            /\ Cardinality(rules) < MaxRules + Cardinality(FixedRules)
-           /\ \E r \in RuleCands \ rules : Keep(r) /\ rules' = rules \cup {r}
+           /\ \E r \in (RuleCands \cup ExtraRules) \ rules : Keep(r) /\ rules' = rules \cup {r}
            /\ UNCHANGED <<edb, phase>>
 
 \* Random rules are parameterised by the state so that TLC does not cache them as constants.
@@ -64,7 +65,9 @@ RandomRule(n) ==
 AddRandomRule ==
   /\ phase = "rules" /\ Randomized
   /\ Cardinality(rules) < MaxRules + Cardinality(FixedRules)
-  /\ \E r \in {RandomRule(Cardinality(rules))} : IF Keep(r) THEN rules' = rules \cup {r} ELSE UNCHANGED rules
+  /\ \E r \in {IF ExtraRules # {} /\ (Heads = {} \/ RandomElement(1..(3 + 0 * Cardinality(rules))) = 1)
+               THEN RandomElement({x \in ExtraRules : Cardinality(rules) >= 0})
+               ELSE RandomRule(Cardinality(rules))} : IF Keep(r) THEN rules' = rules \cup {r} ELSE UNCHANGED rules
   /\ UNCHANGED <<edb, phase>>
 
 ChooseEdb == /\ phase = "rules"
